@@ -200,6 +200,9 @@ class MetaLoop(LoopSpec):
         out.append(('C04.carried_elements_present',
                     z3.ForAll([j], Imp(A(0 <= j, j < k), H.mem(P, cpy(j))), patterns=[car(j)])))
         out.append(('roID_present', H.find(P, lit('roID')) != null))
+        same_roid = forall_nodes(1, lambda c: Imp(A(H0.mem(mb, c), H0.tag(c) == lit('roID')), text(c) == text(H0.find(P, lit('roID')))),
+                                 patterns=lambda c: [H0.mem(mb, c)])
+        out.append(('C14.roID_text_kept', Imp(same_roid, text(H.find(P, lit('roID'))) == text(H0.find(P, lit('roID'))))))
         pre = lambda qq: A(qq != P, born(qq) <= c0)
         out.append(('frame.lists', A(
             z3.ForAll([q, z], Imp(pre(q), A(H.mem(q, z) == H0.mem(q, z), H.pos(q, z) == H0.pos(q, z))), patterns=[H.mem(q, z), H.pos(q, z)]),
@@ -279,5 +282,9 @@ class MetaDataReplaceMerge(MergeContract):
         out.append(('C04.every_carried_element_is_present_as_a_copy',
                     z3.ForAll([j], Imp(A(0 <= j, j < n), A(H1.mem(P, cpy(j)), H1.tag(cpy(j)) == H0.tag(H0.at(mb, j)))))))
         out.append(('C07.no_spurious_completion', H1.find(V0.root, lit('mosromgrmeta')) == H0.find(V0.root, lit('mosromgrmeta'))))
+        out.append(('C14.roID_text_kept_unless_a_different_roID_is_carried',
+                    A(H1.find(V0.root, lit('roCreate')) == P,
+                      Imp(forall_nodes(1, lambda c: Imp(A(H0.mem(mb, c), H0.tag(c) == lit('roID')), text(c) == text(H0.find(P, lit('roID'))))),
+                          text(H1.find(P, lit('roID'))) == text(H0.find(P, lit('roID')))))))
         out.append(('C06.no_warning', z3.BoolVal([w for w in ex.st.warns if not w.startswith('*')] == [])))
         return out
